@@ -185,7 +185,7 @@ func cmdCheck(args []string) {
 	if err := eng.LoadContracts(); err != nil {
 		engineFailure(*prop, *tier, seed, "ENGINE-CONTRACTS: "+err.Error(), t0)
 	}
-	timeout := 10
+	timeout := 20
 	if *tier == "thorough" {
 		timeout = 120
 	}
@@ -287,7 +287,7 @@ func (e *Engine) RunProperty(id, tier string, seed, timeout int) *CheckRun {
 			real = append(real, o)
 		}
 	}
-	ds := DischargeAll(real, timeout, seed, 16, os.Getenv("GOV_DUMP"))
+	ds := DischargeAll(real, timeout, seed, 10, os.Getenv("GOV_DUMP"))
 	byName := map[string]*OblResult{}
 	var order []string
 	get := func(o *Obligation) *OblResult {
